@@ -1,7 +1,8 @@
 """C15 — the cycle limit is enforced exactly.
 
 M : CycleLimit.tla — safety (never passes the limit, exactness, closed form) and liveness (AlwaysStops, incl. a
-    non-terminating program) under weak fairness, no state constraint.
+    non-terminating program) under weak fairness, no state constraint; proofs/CycleLimitProof.tla: TLAPS proof that
+    the safety properties hold for every program length and every limit (inductive invariant, unbounded).
 R : GEN_Cycle scenarios: for every program of the corpus (cycle count n measured by an unlimited run and, for the
     non-terminating program, n = infinity) every limit m around n x every expected-cycles hint e <= m; expected:
     success iff n <= m, otherwise CycleLimitExceeded(m); option sets (max, expected): accepted iff max >= 64 and
@@ -36,6 +37,28 @@ def run(tier, replay=None):
     ck.add_tlc(r)
     if r.violation:
         ck.violation("spec:MC_CycleLimit:" + str(r.violation), "specification-level property violated", {"tlc": r.out[-3000:]})
+    # unbounded (TLAPS) proof that NeverPassesLimit and Exact hold for every program length and every limit
+    import subprocess, shutil
+    pdir = os.path.join(SPEC, "proofs")
+    shutil.rmtree(os.path.join(pdir, ".tlacache"), ignore_errors=True)
+    try:
+        pr = subprocess.run(["timeout", "600", "tlapm", "--threads", "4", "-I", "..", "CycleLimitProof.tla"], cwd=pdir,
+                            capture_output=True, text=True)
+    except OSError as e:
+        raise ToolError("tlapm not runnable: %s" % e)
+    pout = pr.stdout + pr.stderr
+    import re as _re
+    m = _re.search(r"All (\d+) obligations? proved", pout)
+    if pr.returncode == 124:
+        raise ToolError("tlapm timed out")
+    if not m:
+        if "obligations failed" in pout or "obligation failed" in pout:
+            ck.violation("spec:CycleLimitProof", "the inductive invariant of the cycle-limit model is no longer provable", {"tlapm": pout[-3000:]})
+        else:
+            raise ToolError("tlapm: " + pout[-1500:])
+    else:
+        ck.extra["tlaps_obligations_proved"] = int(m.group(1))
+    shutil.rmtree(os.path.join(pdir, ".tlacache"), ignore_errors=True)
     # measure the cycle count of every program (unlimited run)
     meas = os.path.join(wd, "measure.ndjson")
     with open(meas, "w") as f:
